@@ -303,6 +303,13 @@ class C16(BaseMonitor):
         """'An object can never end up in two systems', through link edits between two computed systems.  Terminal
         op of a run (the spec-level link model describes one system)."""
         sim = self.sim
+        if op.get("prep"):
+            st, rt = self.execute(dict(op["prep"], i=i))
+            if st != "ok":
+                self.stop = "op_raised"
+                return "raised"
+            self.check_links(i, op["prep"])
+            self.res.count("fault:cross_system_after_in_place_emptying")
         st, rt = self.execute({"op": "clone_system", "suffix": op["suffix"]})
         if st != "ok":
             self.stop = "op_raised"
@@ -1335,6 +1342,13 @@ class C18(FaultMonitorMixin, BaseMonitor):
             targets = [r.choice(objs) for _ in range(r.choice([1, 2, 4]))]
             return {"op": "read", "kind": kind, "targets": targets, "with_calc": r.random() < 0.7,
                     "cumsum": r.random() < 0.5, "fault": "F6", "i": i}
+        if x < 0.38:
+            # natural construction fault: a service that does not fit on a server of the computed system is refused;
+            # what the refusal leaves behind is judged by the recomputation requests of the tail
+            op = opgen.gen_install_service(r, spec, self.cfg, set(inside), i, refused=True)
+            if op is not None:
+                op["i"] = i
+                return op
         return opgen.gen_edit(r, spec, self.cfg, i, focus=getattr(self, 'focus', None))
 
     def on_start(self):
@@ -1709,7 +1723,7 @@ MONITORS["C19"] = C19
 # ---------------------------------------------------------------------------------------------------
 # shared history generator for the monitor-style properties (C07, C08): every op and fault kind
 
-def gen_mixed_op(mon, i, p_sim=0.12, p_restart=0.06, p_fail=0.08, p_bad=0.06, p_read=0.06):
+def gen_mixed_op(mon, i, p_sim=0.12, p_restart=0.06, p_fail=0.08, p_bad=0.06, p_read=0.06, p_refused=0.04):
     r = mon.k.rng("op", i)
     sim = mon.sim
     spec = sim.spec
@@ -1747,6 +1761,13 @@ def gen_mixed_op(mon, i, p_sim=0.12, p_restart=0.06, p_fail=0.08, p_bad=0.06, p_
         objs = sorted(inside)
         return {"op": "read", "kind": r.choice(READ_KINDS), "targets": [r.choice(objs) for _ in range(2)],
                 "with_calc": True, "cumsum": False, "fault": "F6", "i": i}
+    x -= p_read
+    if 0 <= x < p_refused:
+        # natural construction fault on the live model: a service that does not fit on one of its servers
+        op = opgen.gen_install_service(r, spec, mon.cfg, inside, i, refused=True)
+        if op is not None:
+            op["i"] = i
+            return op
     return opgen.gen_edit(r, spec, mon.cfg, i, focus=getattr(mon, 'focus', None))
 
 
